@@ -8,10 +8,11 @@ import importlib.util
 import os
 
 import verif as V
+import dhcp6int
 import locks
 
 PROP = "C16"
-SPEC = ["Bng.Spec.C16Teardown", "Bng.Spec.C16TeardownMon", "Bng.Spec.C16Pppoe", "Bng.Spec.C16PppoeWhole", "Bng.Spec.C16PppoePark", "Bng.Spec.C16SubMgr", "Bng.Spec.C16Paths"] + ["Bng.Spec.C02Locks", "Bng.Spec.C16Locks", "Bng.Spec.C10Locks"]
+SPEC = ["Bng.Spec.C16Teardown", "Bng.Spec.C16TeardownMon", "Bng.Spec.C16Pppoe", "Bng.Spec.C16PppoeWhole", "Bng.Spec.C16PppoePark", "Bng.Spec.C16SubMgr", "Bng.Spec.C16Paths"] + ["Bng.Spec.C02Locks", "Bng.Spec.C16Locks", "Bng.Spec.C10Locks", "Bng.Spec.C19Locks"]
 COMPS = [
     V.Component("pppoesrv", monitors=["residue", "conservation", "obs-roundtrip", "held-free", "pool-entry", "swept-active", "kept-idle"]),
     V.Component("teardown", monitors=["double-stop", "double-cleanup", "residue", "missing-stop", "stop-unstarted", "stop-before-end", "not-terminated", "double-padt", "stop-without-start", "ebpf-residue", "obs-roundtrip"]),
@@ -26,6 +27,10 @@ if os.path.exists(_extra):
     SPEC += _m.SPEC
 else:
     _m = None
+
+# the DHCPv6 server in integrated-allocator mode (lib/dhcp6int.py)
+COMPS += dhcp6int.comps(["leak"])
+SPEC = SPEC + dhcp6int.SPEC
 
 LEVEL = ("Exactly-once teardown (at most one Accounting-Stop and one map removal per session, nothing held afterwards, "
          "second termination is the identity) is proved over the Lean model of pppoe.SessionTeardown for ALL sequences of "
@@ -67,6 +72,9 @@ if _m is not None:
     LEVEL = LEVEL + " DHCPv4 paths: " + getattr(_m, "LEVEL", "")
     ASSUME = ASSUME + list(getattr(_m, "ASSUME", []))
 
+
+ASSUME = ASSUME + dhcp6int.ASSUME
+LEVEL = LEVEL + " " + dhcp6int.LEVEL
 
 def run(tier, seed):
     return V.standard_check(PROP, SPEC, COMPS, LEVEL, ASSUME, tier, seed, pre=locks.with_locks(regenerate))
